@@ -96,6 +96,14 @@ fn main() {
             }
             rep.finish()
         }
+        "C05" => {
+            umverif::c05::run(&mut rep);
+            rep.finish()
+        }
+        "C09" => {
+            umverif::c09::run(&mut rep);
+            rep.finish()
+        }
         "C15" => {
             umverif::c15::run(&mut rep);
             rep.finish()
